@@ -128,7 +128,7 @@ if "consumers" in req:
         row = {"id": case["id"]}
         for p in case["presets"]:
             try:
-                with time_limit(60):
+                with time_limit(150):
                     row[p] = one_consumer(at, case, p)
             except Exception as e:
                 row[p] = {"error": type(e).__name__ + ": " + str(e)[:200]}
